@@ -370,8 +370,99 @@ def r11_type_walkers(run, F):
         run.require(n >= 10, "%s: too few obligations (%d)" % (fn, n))
 
 
+STAGE_FILES = ("src/alpha/scoper/", "src/alpha/typer.rs", "src/alpha/analyzer/", "src/alpha/linter.rs", "src/alpha/resolver.rs",
+               "src/alpha/generator.rs", "src/alpha/expander.rs")
+
+
+def _tree_paths(root):
+    st = [(root, ())]
+    while st:
+        n, p = st.pop()
+        if isinstance(n, dict):
+            yield n, p
+            for k, v in n.items():
+                if isinstance(v, (dict, list)):
+                    st.append((v, p + ((id(n), n.get("k"), k),)))
+        elif isinstance(n, list):
+            for i, x in enumerate(n):
+                st.append((x, p + ((id(n), "list", i),)))
+
+
+def _exclusive(p1, p2):
+    """Two sites are alternatives (never both executed in one activation) when they sit in different arms of one match or in the
+    then / else branch of one if."""
+    i = 0
+    while i < min(len(p1), len(p2)) and p1[i] == p2[i]:
+        i += 1
+    if i >= min(len(p1), len(p2)):
+        return False
+    a, b = p1[i], p2[i]
+    if a[0] != b[0]:
+        return False
+    if a[1] == "list" and i > 0 and p1[i - 1][2] == "arms":
+        return True
+    return a[1] == "If" and {a[2], b[2]} == {"then", "else"}
+
+
+def r12_linear_traversal(run, F):
+    """"Compilation terminates" in any practical sense needs every stage to be linear in the nesting depth: a function on a
+    recursion cycle of the stage code (scoper, typer, analyzers, linter, resolver, generator) that hands the *same* child of
+    its node to the recursion at two call sites of one activation does 2^depth work (45 nested blocks are accepted today).
+    For every such function: recursive call sites are keyed by (callee, field of the node the receiver is sliced back to,
+    tuple position for split_first-like splits); two sites with the same key that are not alternatives of one match / if
+    are a violation.  Top-level pre-passes (Declaration::analyze runs a function body three times) are not on a cycle."""
+    from rules import origins
+    C = F.lib
+    g = mirq.callgraph(C)
+    on_cycle = {}
+    for comp in mirq.sccs(g):
+        comp = list(comp)
+        if len(comp) > 1 or (comp and comp[0] in g.get(comp[0], ())):
+            fs = frozenset(comp)
+            for n in comp:
+                on_cycle[n] = fs
+    nfun = nsites = 0
+    for p, b in sorted(C.bodies.items()):
+        if "hir" not in b or "{closure" in p or p not in on_cycle or not F.rel(b["file"]).startswith(STAGE_FILES):
+            continue
+        comp = on_cycle[p]
+        nfun += 1
+        sites = {}
+        for n, path in _tree_paths(b["hir"]):
+            if n.get("k") not in ("MethodCall", "Call"):
+                continue
+            c = hirq.callee(n) or hirq.callee_decl(n) or ""
+            if c not in comp:
+                continue
+            recv = n.get("recv") or (n["a"][0] if n.get("a") else None)
+            if recv is None:
+                continue
+            nsites += 1
+            o = origins.origins(b["hir"], recv, b.get("params", ()))
+            flds = sorted(set(k[1] for k in o if k[0] == "field") | set(k[2] for k in o if k[0] == "patfield"))
+            pos = tuple(sorted(k[1] for k in o if k[0] == "tuplepos"))
+            for f in flds:
+                sites.setdefault((c, f, pos), []).append((n, path))
+        for (c, f, pos), ss in sorted(sites.items(), key=lambda kv: str(kv[0])):
+            groups = []
+            for s1 in ss:
+                for g1 in groups:
+                    if all(not _exclusive(s1[1], x[1]) for x in g1):
+                        g1.append(s1)
+                        break
+                else:
+                    groups.append([s1])
+            worst = max(groups, key=len)
+            if len(ss) >= 2:
+                run.ob("R12-LINEAR-TRAVERSAL", "%s|%s.%s" % (p, c.split(" as ")[0].split("::")[-1].strip("<>"), f), len(worst) < 2, F.where(b, worst[0][0]),
+                       "%s is on a recursion cycle and passes its child `%s` to %s at %d call sites of one activation (lines %s): the work is %d^depth" % (
+                           p, f, c, len(worst), sorted(x[0].get("l") for x in worst), len(worst)))
+    run.ob("R12-LINEAR-TRAVERSAL", "scan", nfun >= 40 and nsites >= 150, "src/alpha", "%d functions on recursion cycles in the stage files, %d recursive call sites" % (nfun, nsites))
+
+
 def check(run):
     F = run.facts("B")
+    r12_linear_traversal(run, F)
     r1_inventory(run, F)
     r1b_phase(run, F)
     r2_unfinished(run, F)
